@@ -1354,7 +1354,13 @@ void f_bind (void) {
     error ("Permission of binding denied by master object.\n");
 
   new_fp = ALLOCATE (funptr_t, TAG_FUNP, "f_bind");
-  *new_fp = *old_fp;
+  /* efun, simul_efun and local function pointers are allocated with room for their own variant only
+   * (see make_efun_funp): copy the header and that variant, not the whole union */
+  new_fp->hdr = old_fp->hdr;
+  if ((old_fp->hdr.type & 0x0f) == FP_FUNCTIONAL)
+    new_fp->f.functional = old_fp->f.functional;
+  else
+    new_fp->f.local = old_fp->f.local;
   new_fp->hdr.owner = ob;	/* one ref from being on stack */
   if (new_fp->hdr.args)
     new_fp->hdr.args->ref++;
